@@ -177,11 +177,18 @@ def _replay(chunk, arg):
 
 ALPH = {
     "xpath": [("sl", "/"), ("at", "@"), ("lb", "["), ("rb", "]"), ("dg", 1), ("dg", 0), ("nm", "Leaf"), ("nm", "items"), ("nm", "Nope"),
-              ("nm", "CodePoint"), ("nm", "Many")],
+              ("nm", "CodePoint"), ("nm", "Many"), ("nm", "Late")],
     "pattern": [("lp", "("), ("rp", ")"), ("bar", "|"), ("star", "*"), ("at", "@"), ("eq", "="), ("lb", "["), ("rb", "]"),
                 ("arrow", "->"), ("dollar", "$"), ("none", "None"), ("nm", "Leaf"), ("nm", "items"), ("nm", "x"), ("nm", "y"),
-                ("nm", "Nope"), ("nm", "CodePoint"), ("str", "ab"), ("str", "(")],
+                ("nm", "Nope"), ("nm", "CodePoint"), ("nm", "Late"), ("str", "ab"), ("str", "(")],
 }
+
+
+def define_late(name: str):
+    """a node class that comes into existence after texts naming it were already compiled (and rejected)"""
+    ns: dict = {}
+    exec(f"from dataclasses import dataclass\nfrom pyoak.node import ASTNode\n@dataclass(frozen=True)\nclass {name}(ASTNode):\n    a: str = ''\n", ns)
+    return ns[name]
 
 
 def _record(chunk, arg):
@@ -189,8 +196,11 @@ def _record(chunk, arg):
     World(zoo.BASIC, "plain")      # the zoo classes must exist for class names to resolve
     lines = []
     stray = []
+    keep = []
     for seed in chunk:
         rng = random.Random(seed)
+        late = f"Late{seed}"        # spelled `Late` in the recorded tokens; unknown in phase 1, a node class in phase 2
+        cases = []
         for _ in range(arg["n"]):
             lang = rng.choice(["xpath", "pattern"])
             toks = [dict(zip(("k", "v"), rng.choice(ALPH[lang]))) for _ in range(rng.randrange(1, 9))]
@@ -198,19 +208,26 @@ def _record(chunk, arg):
                 toks = [{"k": "lp", "v": "("}] + toks + [{"k": "rp", "v": ")"}]
             if lang == "xpath" and rng.random() < 0.5:
                 toks = [{"k": "sl", "v": "/"}] + toks
-            text = render(toks, rng.random() < 0.5)
-            if lang == "xpath":
-                x, s = try_xpath(text)
-                acc = x is not None
-            else:
-                v, s, _ = try_pattern(text)
-                acc = v[1]
-                if s is None and len(set(v)) != 1:
-                    s = f"entry points disagree: {v}"
-            if s:
-                stray.append({"lang": lang, "toks": toks, "text": text, "stray": s})
-            else:
-                lines.append({"lang": lang, "toks": toks, "text": text, "accepted": bool(acc)})
+            cases.append((lang, toks, rng.random() < 0.5))
+        for phase in (1, 2):
+            if phase == 2:
+                keep.append(define_late(late))
+            for lang, toks, spaced in cases:
+                if phase == 2 and not any(tk["v"] == "Late" for tk in toks):
+                    continue
+                text = render([dict(tk, v=late) if tk["v"] == "Late" else tk for tk in toks], spaced)
+                if lang == "xpath":
+                    x, s = try_xpath(text)
+                    acc = x is not None
+                else:
+                    v, s, _ = try_pattern(text)
+                    acc = v[1]
+                    if s is None and len(set(v)) != 1:
+                        s = f"entry points disagree: {v}"
+                if s:
+                    stray.append({"lang": lang, "toks": toks, "text": text, "stray": s})
+                else:
+                    lines.append({"lang": lang, "toks": toks, "text": text, "accepted": bool(acc), "phase": phase})
         # byte-level noise: totality only
         for _ in range(arg["n"]):
             text = "".join(rng.choice("/@[]()|*=->$\"' \tLeafitmsNonex012") for _ in range(rng.randrange(1, 14)))
@@ -226,12 +243,24 @@ def _record(chunk, arg):
 
 
 def trace_validate(chk, lines, name="trace"):
+    """lines of phase 1 were recorded while the class `Late` did not exist, those of phase 2 after it was defined: two
+    instances of the recognizer that differ in NodeClasses"""
+    p2 = [i for i, ln in enumerate(lines) if ln.get("phase") == 2]
+    if p2 and len(p2) < len(lines):
+        p1 = [i for i, ln in enumerate(lines) if ln.get("phase") != 2]
+        a = _trace_validate(chk, [lines[i] for i in p1], name + "-before", NODECLASSES)
+        b = _trace_validate(chk, [lines[i] for i in p2], name + "-after", NODECLASSES | {"Late"})
+        return sorted([p1[j - 1] + 1 for j in a] + [p2[j - 1] + 1 for j in b])
+    return _trace_validate(chk, lines, name, NODECLASSES | ({"Late"} if p2 else set()))
+
+
+def _trace_validate(chk, lines, name, nodeclasses):
     f = chk.wd / f"{name}.ndjson"
     with open(f, "w") as fh:
         for ln in lines:
             fh.write(json.dumps(ln) + "\n")
     mod, cfg = inst.instance("I_TraceSyntax", "Trace_Syntax",
-                             dict(NodeClasses=set(NODECLASSES), BadRegex=set(BADRE), KeyNames=set(KEYS)),
+                             dict(NodeClasses=set(nodeclasses), BadRegex=set(BADRE), KeyNames=set(KEYS)),
                              postcondition="Done", extra_cfg=["CHECK_DEADLOCK FALSE"])
     (chk.wd / "I_TraceSyntax.tla").write_text(mod)
     r = tlc.run(chk.wd, "I_TraceSyntax", cfg, workers=1, timeout=3000, env={"TRACE_FILE": str(f)})
@@ -292,16 +321,22 @@ def replay(chk, data):
             chk.add(core.Violation(clause, c, detail))
         return
     text = case["text"]
-    if case["lang"] == "xpath":
-        x, s = try_xpath(text)
-        acc = x is not None
-    else:
-        v, s, _ = try_pattern(text)
-        acc = v[1]
-        if s is None and len(set(v)) != 1:
-            s = f"entry points disagree: {v}"
+    import re
+    keep = []
+    for phase in ((1, 2) if case.get("phase") == 2 else (1,)):
+        if phase == 2:      # as recorded: the text was compiled once before the class it names existed
+            keep = [define_late(nm) for nm in sorted(set(re.findall(r"Late\d+", text)))]
+        if case["lang"] == "xpath":
+            x, s = try_xpath(text)
+            acc = x is not None
+        else:
+            v, s, _ = try_pattern(text)
+            acc = v[1]
+            if s is None and len(set(v)) != 1:
+                s = f"entry points disagree: {v}"
     if s:
         chk.add(core.Violation("trace-stray", case, s))
     elif case.get("toks"):
-        if trace_validate(chk, [{"lang": case["lang"], "toks": case["toks"], "text": text, "accepted": bool(acc)}], "replay"):
+        ln = {"lang": case["lang"], "toks": case["toks"], "text": text, "accepted": bool(acc), "phase": case.get("phase", 1)}
+        if trace_validate(chk, [ln], "replay"):
             chk.add(core.Violation("trace-verdict", case, "still contradicts Syntax.tla"))
